@@ -286,16 +286,22 @@ func typeParamOfTypeOf(v ssa.Value) (string, bool) {
 		return "", false
 	}
 	a := c.Common().Args[0]
-	if mi, ok := a.(*ssa.MakeInterface); ok {
-		t := mi.X.Type()
-		if p, ok := t.(*types.Pointer); ok {
-			if tp, ok := p.Elem().(*types.TypeParam); ok {
-				return tp.Obj().Name(), true
-			}
-		}
-		if tp, ok := t.(*types.TypeParam); ok {
+	var t types.Type
+	switch x := a.(type) {
+	case *ssa.MakeInterface:
+		t = x.X.Type()
+	case *ssa.ChangeType:
+		t = x.X.Type()
+	default:
+		return "", false
+	}
+	if p, ok := t.(*types.Pointer); ok {
+		if tp, ok := p.Elem().(*types.TypeParam); ok {
 			return tp.Obj().Name(), true
 		}
+	}
+	if tp, ok := t.(*types.TypeParam); ok {
+		return tp.Obj().Name(), true
 	}
 	return "", false
 }
